@@ -147,16 +147,37 @@ Definition conn_cells (m : meshmeta) (lname conn : string) : result (Z * bool) :
                   | None => Err KeyErr
                   end).
 
+(* the name of that dimension *)
+Definition conn_dim (m : meshmeta) (lname conn : string) : result string :=
+  rbind (cell_dimension m lname conn)
+        (fun i => match var_dims m conn with
+                  | Some dims => match nth_error dims i with
+                                 | Some d => Ok d
+                                 | None => Err IndexErr
+                                 end
+                  | None => Err KeyErr
+                  end).
+
 (* what a location of an accepted mesh gets: the size of its domain axis, the cell type,
    (rows, stored (node, cell), start index) of the domain topology, of the cell
-   connectivity (faces only) and of the bounds gathered from the nodes *)
+   connectivity (faces only) and of the bounds gathered from the nodes.
+   The cell connectivity (handoff/C15-fix3-1.diff) is created only from a 2-d
+   face_face_connectivity variable whose cell dimension is the face dimension of the mesh;
+   ls_cc_old is what the code before that repair creates: a construct from any existing
+   variable, which implementation.set_cell_connectivity then refuses with ValueError (the
+   whole read raises) when its number of rows differs from the size of the domain axis *)
 Record loc_summary := {
+  ls_dim : string;
   ls_axis : Z;
   ls_cell : string;
   ls_dt : Z * bool * Z;
   ls_cc : option (Z * bool * Z);
+  ls_cc_old : option (Z * bool * Z);
   ls_bounds : option (Z * bool * Z)
 }.
+
+Definition attach_ok_old (s : loc_summary) : bool :=
+  match ls_cc_old s with Some c => fst (fst c) =? ls_axis s | None => true end.
 
 Definition summarise (m : meshmeta) (l : loc) : result (option loc_summary) :=
   rbind (loc_dim m l) (fun od =>
@@ -170,13 +191,16 @@ Definition summarise (m : meshmeta) (l : loc) : result (option loc_summary) :=
            | Face =>
              match assoc "face_face_connectivity"%string (mm_attrs m) with
              | Some ff => if var_exists m ff
-                          then rbind (conn_cells m "face" ff)
-                                     (fun rc2 => Ok (Some (fst rc2, snd rc2, start_index_of m ff)))
-                          else Ok None
-             | None => Ok None
+                          then rbind (conn_cells m "face" ff) (fun rc2 =>
+                               rbind (conn_dim m "face" ff) (fun dn =>
+                               let c := (fst rc2, snd rc2, start_index_of m ff) in
+                               let spans := match var_dims m ff with Some [_; _] => String.eqb dn d | _ => false end in
+                               Ok (if spans then Some c else None, Some c)))
+                          else Ok (None, None)
+             | None => Ok (None, None)
              end
-           | _ => Ok None
-           end) (fun cc =>
+           | _ => Ok (None, None)
+           end) (fun ccs =>
     let bounds := match l with
                   | Node => None
                   | _ => match assoc "node_coordinates"%string (mm_coords m) with
@@ -184,7 +208,8 @@ Definition summarise (m : meshmeta) (l : loc) : result (option loc_summary) :=
                          | _ => None
                          end
                   end in
-    Ok (Some {| ls_axis := dim_size m d; ls_cell := cell; ls_dt := dt; ls_cc := cc; ls_bounds := bounds |})))
+    Ok (Some {| ls_dim := d; ls_axis := dim_size m d; ls_cell := cell; ls_dt := dt; ls_cc := fst ccs; ls_cc_old := snd ccs;
+           ls_bounds := bounds |})))
   | _, _ => Ok None
   end).
 
@@ -196,3 +221,9 @@ Definition parse_mesh (m : meshmeta) : result (option (list (option loc_summary)
     rbind (summarise m Edge) (fun e =>
     rbind (summarise m Face) (fun f => Ok (Some [n; e; f]))))
   else Ok None).
+
+(* _create_field_or_domain (after commit 27c43f0): the constructs of a location are given to a
+   data variable only if the variable spans the location's dimension; otherwise the problem
+   is reported and the mesh ignored for that variable *)
+Definition attach (s : loc_summary) (data_dim : string) : option loc_summary :=
+  if String.eqb data_dim (ls_dim s) then Some s else None.
